@@ -143,6 +143,7 @@ def _replay_worker(args):
     per_proc = opts.get("behaviours_per_process", 400)
     index = []           # trace line number (1-based) -> (behaviour index, step index)
     sweeps = {}          # trace line number of a real-timer sweep step -> behaviour indices of its process
+    procs = []           # one list of behaviour indices per daemon process, in the order they were replayed
     nsteps = 0
     ncrash = 0
     ub_notes = set()
@@ -161,6 +162,7 @@ def _replay_worker(args):
                          modules=opts.get("modules", ("iauth_xquery",)), rules=opts.get("rules"),
                          logs=opts.get("logs"))
             w(D.reset_record(svcs, timeout_on, cls=opts.get("cls")), -1, -1)
+            procs.append([])
             serial = 0
             gens = {}
             crashed = d.dead
@@ -171,6 +173,7 @@ def _replay_worker(args):
                 if crashed:
                     break
                 tm = D.TagResolver(serial, gens)
+                procs[-1].append(bi)
                 evs = list(events) + _cleanup_events(events)
                 for si, e in enumerate(evs):
                     e2 = tm.event(e)
@@ -213,7 +216,7 @@ def _replay_worker(args):
     with open(trace_path + ".idx", "w") as f:
         json.dump(index, f)
     return {"trace": trace_path, "steps": nsteps, "crashes": ncrash, "ubsan": sorted(ub_notes), "lines": line_no,
-            "sweeps": sweeps}
+            "sweeps": sweeps, "procs": procs}
 
 
 def replay(ctx, behaviours, svcs, timeout_on=True, nproc=6, tag="r", **opts):
@@ -298,7 +301,19 @@ def run_single(ctx, events, svcs, timeout_on=True, tag="single", **opts):
     return f, recs
 
 
-def report(ctx, findings, behaviours, svcs, own_conjuncts, timeout_on=True, table=None, crash_is_own=False, **opts):
+def run_sequence(ctx, seq, svcs, timeout_on=True, tag="seq", **opts):
+    """Replay several behaviours one after the other on ONE fresh daemon; returns findings (bi = position in seq)."""
+    sub = os.path.join(ctx.scratch, "%s-%d" % (tag, int(time.time() * 1e6) % 10**9))
+    os.makedirs(sub, exist_ok=True)
+    o2 = dict(opts, behaviours_per_process=len(seq) + 1)
+    res = _replay_worker((ctx.build.root, ctx.build.moddir, ctx.build.daemon, sub, svcs, timeout_on,
+                          list(enumerate(seq)), os.path.join(sub, "t.ndjson"), o2))
+    f = validate_all(ctx, [res], nthreads=1)
+    shutil.rmtree(sub, ignore_errors=True)
+    return f
+
+
+def report(ctx, findings, behaviours, svcs, own_conjuncts, timeout_on=True, table=None, crash_is_own=False, results=None, **opts):
     """Turn validation findings into DRIFT / VIOLATION reports (violations only for this check's own
     conjuncts, after the failing history was replayed a second time on a fresh daemon)."""
     seen = set()
@@ -327,11 +342,32 @@ def report(ctx, findings, behaviours, svcs, own_conjuncts, timeout_on=True, tabl
         # second opinion on a fresh process
         again, recs = run_single(ctx, events, svcs, timeout_on, **opts) if events else ([], [])
         still = [g for g in again if g["kind"] == "V" and set(g["conjuncts"]) & set(mine)]
-        if events and not still:
+        context = None
+        if events and not still and results:
+            # the failure may need state left behind by the clients that were replayed before on the same daemon process:
+            # second opinion with that context (first only the immediate predecessor, then the whole prefix)
+            proc = next((p for r in results for p in r.get("procs", []) if f["bi"] in p), None)
+            if proc:
+                k = proc.index(f["bi"])
+                for start in ([k - 1] if k >= 1 else []) + ([0] if k >= 2 else []):
+                    seq = [behaviours[b] for b in proc[start:k + 1]]
+                    ag = run_sequence(ctx, seq, svcs, timeout_on, **opts)
+                    if any(g["kind"] == "V" and g["bi"] == len(seq) - 1 and set(g["conjuncts"]) & set(mine) for g in ag):
+                        context = seq[:-1]
+                        break
+        if events and not still and context is None:
             ctx.note("violation of %s did not repeat on a fresh daemon: [%s] (not reported)" % (mine, hist_short(upto)))
             continue
         got = trace_line(f["trace"], f["l"])
         sig = "%s: %s" % ("+".join(mine), hist_short(normalise_tags(upto)))
+        if context is not None:
+            sig += " (after %s on the same daemon)" % ("[%s]" % hist_short(context[0]) if len(context) == 1 else "%d earlier clients" % len(context))
+            ctx.violation("contract conjunct(s) %s violated by the real daemon at step %d of history [%s], replayed after %d earlier "
+                          "client histories on the same daemon process (it does not fail on a fresh daemon)"
+                          % (mine, f["si"], hist_short(upto), len(context)), "+".join(mine), sig,
+                          {"kind": "iauth-sequence", "table": table, "svcs": svcs, "timeout_on": timeout_on,
+                           "sequence": context + [events], "failing_step": f["si"], "observed": got, "opts": {k: v for k, v in opts.items()}})
+            continue
         ctx.violation("contract conjunct(s) %s violated by the real daemon at step %d of history [%s]"
                       % (mine, f["si"], hist_short(upto)), "+".join(mine), sig,
                       {"kind": "iauth-history", "table": table, "svcs": svcs, "timeout_on": timeout_on,
@@ -380,6 +416,15 @@ def resolve_sweeps(ctx, findings, results, behaviours, svcs, own, timeout_on, pl
 def replay_file(ctx, body, own_conjuncts, crash_is_own=False):
     """Re-run a recorded violation (vcheck --replay)."""
     rp = body["replay"]
+    if rp.get("kind") == "iauth-sequence":
+        seq = rp["sequence"]
+        ag = run_sequence(ctx, seq, rp["svcs"], rp.get("timeout_on", True), **rp.get("opts", {}))
+        if any(g["kind"] == "V" and g["bi"] == len(seq) - 1 and set(g["conjuncts"]) & set(own_conjuncts) for g in ag):
+            ctx.violation("sequence of client histories on one daemon still violates the contract (replay)", body["conjunct"],
+                          body["signature"], rp)
+        ctx.cov.update(evaluations=sum(len(x) for x in seq), distinct_nontrivial=len(seq), rule="replay of one recorded sequence",
+                       samples=[hist_short(seq[-1])])
+        return
     f, recs = run_single(ctx, rp["events"], rp["svcs"], rp.get("timeout_on", True), **rp.get("opts", {}))
     beh = [rp["events"]]
     for g in f:
@@ -472,7 +517,8 @@ def standard(ctx, plans, own, crash_is_own=False, need=()):
         findings = validate_all(ctx, res)
         t3 = time.time()
         findings = resolve_sweeps(ctx, findings, res, behaviours, svcs, own, timeout_on, plan)
-        report(ctx, findings, behaviours, svcs, own, timeout_on, table=plan.table, crash_is_own=crash_is_own, **plan.opts)
+        report(ctx, findings, behaviours, svcs, own, timeout_on, table=plan.table, crash_is_own=crash_is_own, results=res,
+               **plan.opts)
         st = trace_stats(res)
         for k, v in st.items():
             total_stats[k] = total_stats.get(k, 0) + v
@@ -483,7 +529,7 @@ def standard(ctx, plans, own, crash_is_own=False, need=()):
             res2 = replay(ctx, sub, svcs, timeout_on, tag=p2.name, **opts2)
             f2 = validate_all(ctx, res2)
             f2 = resolve_sweeps(ctx, f2, res2, sub, svcs, own, timeout_on, p2)
-            report(ctx, f2, sub, svcs, own, timeout_on, table=plan.table, crash_is_own=crash_is_own, **opts2)
+            report(ctx, f2, sub, svcs, own, timeout_on, table=plan.table, crash_is_own=crash_is_own, results=res2, **opts2)
             steps += sum(x["steps"] for x in res2)
             ctx.cov["traces_validated_against_impl"] += len(sub)
             ctx.note("plan %s: %d behaviours replayed again with %s: %d findings" % (plan.name, len(sub), opts2, len(f2)))
